@@ -2914,6 +2914,10 @@ namespace bloch::compiler {
                 throw BlochError(ErrorCategory::Semantic, p->line, p->column,
                                  "'" + p->name + "' is already declared in this scope");
             }
+            if (pt.value == ValueType::Void && pt.className.empty()) {
+                throw BlochError(ErrorCategory::Semantic, p->line, p->column,
+                                 "parameters cannot have type 'void'");
+            }
             declare(p->name, false, pt);
             p->accept(*this);
         }
@@ -2963,6 +2967,10 @@ namespace bloch::compiler {
             if (isDeclared(p->name)) {
                 throw BlochError(ErrorCategory::Semantic, p->line, p->column,
                                  "'" + p->name + "' is already declared in this scope");
+            }
+            if (pt.value == ValueType::Void && pt.className.empty()) {
+                throw BlochError(ErrorCategory::Semantic, p->line, p->column,
+                                 "parameters cannot have type 'void'");
             }
             declare(p->name, false, pt);
             p->accept(*this);
